@@ -45,7 +45,7 @@ func genConc(t *rapid.T) ConcCase {
 func runConc(c ConcCase, cc *kit.Case) {
 	runBounded(cc, func(x *ctx) {
 		const topic, other = "ta", "tb"
-		tp := alert.NewTopics(0)
+		tp := alert.NewTopics(alert.MinimumEventBufferSize)
 		tp.Open()
 		closed := false
 		defer func() {
@@ -115,7 +115,7 @@ func runConc(c ConcCase, cc *kit.Case) {
 		rwg.Wait()
 		for p, err := range errs {
 			if err != nil {
-				x.fail("collect/error", "publisher %d: Collect returned %v (queues hold %d events, only %d were published)", p, err, alert.DefaultEventBufferSize, total)
+				x.fail("collect/error", "publisher %d: Collect returned %v (queues hold %d events, only %d were published)", p, err, alert.MinimumEventBufferSize, total)
 				return
 			}
 		}
@@ -321,7 +321,7 @@ func runConc(c ConcCase, cc *kit.Case) {
 var concAssumptions = []string{
 	"concurrent publishers: the order between events of different publishers is not fixed; required are exactly-once per handler, FIFO per publisher, all handlers seeing the same previous level for an event, and per id a consistent chain of previous levels from OK to the final state",
 	"the final state of an event id is the last event with that id of one of the publishers",
-	"fewer events than the default handler queue (5000) are published, so no Collect may report a failed delivery",
+	"fewer events (<= 240) than the handler queue (1000) are published, so no Collect may report a failed delivery",
 }
 
 func TestConcurrent(t *testing.T) {
